@@ -1015,11 +1015,33 @@ Proof.
   - apply tlv_parse_done. lia.
 Qed.
 
+(* body-level round trip: the body parser of d's tag, started on the bytes the body writer emitted for d (at any
+   position of any buffer, with the declared end right behind them), returns d' *)
+Definition body_rt (d d' : Descriptor) : Prop :=
+  forall pre body rest', (exists bi, enc_descriptor_body d = Ok bi /\ items_bytes_ok bi /\ body = bytes_of_items bi) ->
+    exists i1, parse_descriptor_body (Descriptor_Tag d) (desc_size d) (zlen pre + desc_size d)
+                 (mk_iter (pre ++ body ++ rest') (zlen pre)) = Ok (d', i1).
+
 (* ---- per-tag round trips (body level, then lifted through single_descriptor_loop) ---- *)
 
 Definition byte_range (x : Z) : Prop := 0 <= x < 256.
 
 (* stream identifier (EN 300 468 6.2.39) *)
+Lemma brt_stream_identifier d v :
+  Descriptor_Tag d = 82 -> Descriptor_StreamIdentifier d = Some v ->
+  byte_range (DescriptorStreamIdentifier_ComponentTag v) ->
+  body_rt d (set_StreamIdentifier (desc_hdr 82 1) v).
+Proof.
+  intros Ht Hv Hr.
+  assert (Hs : desc_size d = 1) by (unfold desc_size; rewrite Ht, Hv; reflexivity).
+  intros pre body rest' (bi & Ebi & Hbok & ->). rewrite Ht, Hs.
+  assert (bi = enc_stream_identifier v) by (unfold enc_descriptor_body in Ebi; rewrite Ht, Hv in Ebi; inversion Ebi; reflexivity). subst bi.
+  change (parse_descriptor_body 82 1 (zlen pre + 1)) with (v0 <- new_descriptor_stream_identifier ;; iret (set_StreamIdentifier (desc_hdr 82 1) v0)).
+  unfold enc_stream_identifier. rewrite bytes_of_items_cons_u8, bytes_of_items_nil by iok.
+  rewrite Z.mod_small by exact Hr.
+  unfold new_descriptor_stream_identifier, ibind. cbn [app]. rewrite next_byte_step. unfold iret. destruct v. eexists. reflexivity.
+Qed.
+
 Theorem rt_stream_identifier d v out rest :
   Descriptor_Tag d = 82 -> Descriptor_StreamIdentifier d = Some v ->
   byte_range (DescriptorStreamIdentifier_ComponentTag v) ->
@@ -1028,17 +1050,28 @@ Theorem rt_stream_identifier d v out rest :
     Ok ([set_StreamIdentifier (desc_hdr 82 1) v], mk_iter (bytes_of_items out ++ rest) 5).
 Proof.
   intros Ht Hv Hr H Hok.
+  assert (Hbrt : body_rt d (set_StreamIdentifier (desc_hdr 82 1) v)) by (apply (brt_stream_identifier d v); assumption).
   assert (Hs : desc_size d = 1) by (unfold desc_size; rewrite Ht, Hv; reflexivity).
   destruct (single_descriptor_loop d out rest (set_StreamIdentifier (desc_hdr 82 1) v) H Hok) as [E _]; [rewrite Ht; lia|lia| |rewrite Hs in E; exact E].
-  intros pre body rest' Hpre (bi & Ebi & Hbok & ->). rewrite Ht, Hs.
-  assert (bi = enc_stream_identifier v) by (unfold enc_descriptor_body in Ebi; rewrite Ht, Hv in Ebi; inversion Ebi; reflexivity). subst bi.
-  change (parse_descriptor_body 82 1 (zlen pre + 1)) with (v0 <- new_descriptor_stream_identifier ;; iret (set_StreamIdentifier (desc_hdr 82 1) v0)).
-  unfold enc_stream_identifier. rewrite bytes_of_items_cons_u8, bytes_of_items_nil by iok.
-  rewrite Z.mod_small by exact Hr.
-  unfold new_descriptor_stream_identifier, ibind. cbn [app]. rewrite next_byte_step. unfold iret. destruct v. eexists. reflexivity.
+  intros pre body rest' _ Hex. apply Hbrt. exact Hex.
 Qed.
 
 (* data stream alignment (ISO/IEC 13818-1 2.6.10) *)
+Lemma brt_data_stream_alignment d v :
+  Descriptor_Tag d = 6 -> Descriptor_DataStreamAlignment d = Some v ->
+  byte_range (DescriptorDataStreamAlignment_Type v) ->
+  body_rt d (set_DataStreamAlignment (desc_hdr 6 1) v).
+Proof.
+  intros Ht Hv Hr.
+  assert (Hs : desc_size d = 1) by (unfold desc_size; rewrite Ht, Hv; reflexivity).
+  intros pre body rest' (bi & Ebi & Hbok & ->). rewrite Ht, Hs.
+  assert (bi = enc_data_stream_alignment v) by (unfold enc_descriptor_body in Ebi; rewrite Ht, Hv in Ebi; inversion Ebi; reflexivity). subst bi.
+  change (parse_descriptor_body 6 1 (zlen pre + 1)) with (v0 <- new_descriptor_data_stream_alignment ;; iret (set_DataStreamAlignment (desc_hdr 6 1) v0)).
+  unfold enc_data_stream_alignment. rewrite bytes_of_items_cons_u8, bytes_of_items_nil by iok.
+  rewrite Z.mod_small by exact Hr.
+  unfold new_descriptor_data_stream_alignment, ibind. cbn [app]. rewrite next_byte_step. unfold iret. destruct v. eexists. reflexivity.
+Qed.
+
 Theorem rt_data_stream_alignment d v out rest :
   Descriptor_Tag d = 6 -> Descriptor_DataStreamAlignment d = Some v ->
   byte_range (DescriptorDataStreamAlignment_Type v) ->
@@ -1047,20 +1080,30 @@ Theorem rt_data_stream_alignment d v out rest :
     Ok ([set_DataStreamAlignment (desc_hdr 6 1) v], mk_iter (bytes_of_items out ++ rest) 5).
 Proof.
   intros Ht Hv Hr H Hok.
+  assert (Hbrt : body_rt d (set_DataStreamAlignment (desc_hdr 6 1) v)) by (apply (brt_data_stream_alignment d v); assumption).
   assert (Hs : desc_size d = 1) by (unfold desc_size; rewrite Ht, Hv; reflexivity).
   destruct (single_descriptor_loop d out rest (set_DataStreamAlignment (desc_hdr 6 1) v) H Hok) as [E _]; [rewrite Ht; lia|lia| |rewrite Hs in E; exact E].
-  intros pre body rest' Hpre (bi & Ebi & Hbok & ->). rewrite Ht, Hs.
-  assert (bi = enc_data_stream_alignment v) by (unfold enc_descriptor_body in Ebi; rewrite Ht, Hv in Ebi; inversion Ebi; reflexivity). subst bi.
-  change (parse_descriptor_body 6 1 (zlen pre + 1)) with (v0 <- new_descriptor_data_stream_alignment ;; iret (set_DataStreamAlignment (desc_hdr 6 1) v0)).
-  unfold enc_data_stream_alignment. rewrite bytes_of_items_cons_u8, bytes_of_items_nil by iok.
-  rewrite Z.mod_small by exact Hr.
-  unfold new_descriptor_data_stream_alignment, ibind. cbn [app]. rewrite next_byte_step. unfold iret. destruct v. eexists. reflexivity.
+  intros pre body rest' _ Hex. apply Hbrt. exact Hex.
 Qed.
 
 Lemma ok_single_bytes a : items_bytes_ok [WBytes a] -> bytes_ok a.
 Proof. intros H. inversion H; assumption. Qed.
 
 (* user-defined tags 0x80..0xFE: the bytes as they are *)
+Lemma brt_user_defined d :
+  128 <= Descriptor_Tag d <= 254 -> 0 < zlen (Descriptor_UserDefined d) < 256 ->
+  body_rt d (set_UserDefined (desc_hdr (Descriptor_Tag d) (zlen (Descriptor_UserDefined d))) (Descriptor_UserDefined d)).
+Proof.
+  intros Ht Hl.
+  assert (Hu : is_user_defined (Descriptor_Tag d) = true) by (unfold is_user_defined; lia).
+  assert (Hs : desc_size d = zlen (Descriptor_UserDefined d)) by (unfold desc_size; rewrite <- is_user_defined_spec, Hu; reflexivity).
+  intros pre body rest' (bi & Ebi & Hbok & ->). rewrite Hs.
+  assert (bi = [WBytes (Descriptor_UserDefined d)]) by (unfold enc_descriptor_body in Ebi; rewrite Hu in Ebi; inversion Ebi; reflexivity). subst bi.
+  unfold parse_descriptor_body. rewrite Hu.
+  rewrite bytes_of_items_cons_bytes, bytes_of_items_nil, app_nil_r by (try apply ok_single_bytes; iok).
+  unfold ibind. rewrite next_bytes_step by reflexivity. unfold iret. eexists. reflexivity.
+Qed.
+
 Theorem rt_user_defined d out rest :
   128 <= Descriptor_Tag d <= 254 -> 0 < zlen (Descriptor_UserDefined d) < 256 ->
   enc_descriptors_with_length [d] = Ok out -> items_bytes_ok out ->
@@ -1069,19 +1112,31 @@ Theorem rt_user_defined d out rest :
         mk_iter (bytes_of_items out ++ rest) (4 + zlen (Descriptor_UserDefined d))).
 Proof.
   intros Ht Hl H Hok.
+  assert (Hbrt : body_rt d (set_UserDefined (desc_hdr (Descriptor_Tag d) (zlen (Descriptor_UserDefined d))) (Descriptor_UserDefined d))) by (apply (brt_user_defined d); assumption).
   assert (Hu : is_user_defined (Descriptor_Tag d) = true) by (unfold is_user_defined; lia).
   assert (Hs : desc_size d = zlen (Descriptor_UserDefined d)) by (unfold desc_size; rewrite <- is_user_defined_spec, Hu; reflexivity).
   destruct (single_descriptor_loop d out rest
     (set_UserDefined (desc_hdr (Descriptor_Tag d) (zlen (Descriptor_UserDefined d))) (Descriptor_UserDefined d)) H Hok) as [E _];
     [lia|lia| |rewrite Hs in E; exact E].
-  intros pre body rest' Hpre (bi & Ebi & Hbok & ->). rewrite Hs.
-  assert (bi = [WBytes (Descriptor_UserDefined d)]) by (unfold enc_descriptor_body in Ebi; rewrite Hu in Ebi; inversion Ebi; reflexivity). subst bi.
-  unfold parse_descriptor_body. rewrite Hu.
-  rewrite bytes_of_items_cons_bytes, bytes_of_items_nil, app_nil_r by (try apply ok_single_bytes; iok).
-  unfold ibind. rewrite next_bytes_step by reflexivity. unfold iret. eexists. reflexivity.
+  intros pre body rest' _ Hex. apply Hbrt. exact Hex.
 Qed.
 
 (* network name (EN 300 468 6.2.27) *)
+Lemma brt_network_name d v :
+  Descriptor_Tag d = 64 -> Descriptor_NetworkName d = Some v -> 0 < zlen (DescriptorNetworkName_Name v) < 256 ->
+  body_rt d (set_NetworkName (desc_hdr 64 (zlen (DescriptorNetworkName_Name v))) v).
+Proof.
+  intros Ht Hv Hl.
+  assert (Hs : desc_size d = zlen (DescriptorNetworkName_Name v)) by (unfold desc_size; rewrite Ht, Hv; reflexivity).
+  intros pre body rest' (bi & Ebi & Hbok & ->). rewrite Ht, Hs.
+  assert (bi = enc_network_name v) by (unfold enc_descriptor_body in Ebi; rewrite Ht, Hv in Ebi; inversion Ebi; reflexivity). subst bi.
+  set (n := zlen (DescriptorNetworkName_Name v)) in *.
+  change (parse_descriptor_body 64 n (zlen pre + n)) with (v0 <- new_descriptor_network_name (zlen pre + n) ;; iret (set_NetworkName (desc_hdr 64 n) v0)).
+  unfold enc_network_name in *. rewrite bytes_of_items_cons_bytes, bytes_of_items_nil, app_nil_r by (try apply ok_single_bytes; iok).
+  unfold new_descriptor_network_name, bytes_to, ibind. rewrite ioffset_step.
+  replace (zlen pre + n - zlen pre) with n by lia. rewrite next_bytes_step by reflexivity. unfold iret. destruct v. eexists. reflexivity.
+Qed.
+
 Theorem rt_network_name d v out rest :
   Descriptor_Tag d = 64 -> Descriptor_NetworkName d = Some v -> 0 < zlen (DescriptorNetworkName_Name v) < 256 ->
   enc_descriptors_with_length [d] = Ok out -> items_bytes_ok out ->
@@ -1090,16 +1145,11 @@ Theorem rt_network_name d v out rest :
         mk_iter (bytes_of_items out ++ rest) (4 + zlen (DescriptorNetworkName_Name v))).
 Proof.
   intros Ht Hv Hl H Hok.
+  assert (Hbrt : body_rt d (set_NetworkName (desc_hdr 64 (zlen (DescriptorNetworkName_Name v))) v)) by (apply (brt_network_name d v); assumption).
   assert (Hs : desc_size d = zlen (DescriptorNetworkName_Name v)) by (unfold desc_size; rewrite Ht, Hv; reflexivity).
   destruct (single_descriptor_loop d out rest (set_NetworkName (desc_hdr 64 (zlen (DescriptorNetworkName_Name v))) v) H Hok) as [E _];
     [rewrite Ht; lia|lia| |rewrite Hs in E; exact E].
-  intros pre body rest' Hpre (bi & Ebi & Hbok & ->). rewrite Ht, Hs.
-  assert (bi = enc_network_name v) by (unfold enc_descriptor_body in Ebi; rewrite Ht, Hv in Ebi; inversion Ebi; reflexivity). subst bi.
-  set (n := zlen (DescriptorNetworkName_Name v)) in *.
-  change (parse_descriptor_body 64 n (zlen pre + n)) with (v0 <- new_descriptor_network_name (zlen pre + n) ;; iret (set_NetworkName (desc_hdr 64 n) v0)).
-  unfold enc_network_name in *. rewrite bytes_of_items_cons_bytes, bytes_of_items_nil, app_nil_r by (try apply ok_single_bytes; iok).
-  unfold new_descriptor_network_name, bytes_to, ibind. rewrite ioffset_step.
-  replace (zlen pre + n - zlen pre) with n by lia. rewrite next_bytes_step by reflexivity. unfold iret. destruct v. eexists. reflexivity.
+  intros pre body rest' _ Hex. apply Hbrt. exact Hex.
 Qed.
 
 (* unknown tags: everything below 0x80 (and 0xFF) that is not one of the 23 typed tags *)
@@ -1115,6 +1165,24 @@ Ltac not_typed Hn :=
       [exfalso; apply Hn; apply Z.eqb_eq in E; rewrite E; unfold typed_tags; cbn [In]; tauto|]
   end.
 
+Lemma brt_unknown d v :
+  0 <= Descriptor_Tag d < 256 -> is_user_defined (Descriptor_Tag d) = false -> ~ In (Descriptor_Tag d) typed_tags ->
+  Descriptor_Unknown d = Some v -> DescriptorUnknown_Tag v = Descriptor_Tag d -> 0 < zlen (DescriptorUnknown_Content v) < 256 ->
+  body_rt d (set_Unknown (desc_hdr (Descriptor_Tag d) (zlen (DescriptorUnknown_Content v))) v).
+Proof.
+  intros Hr Hu Hn Hv Htag Hl.
+  assert (Hs : desc_size d = zlen (DescriptorUnknown_Content v)).
+  { unfold desc_size. rewrite <- is_user_defined_spec, Hu. not_typed Hn. rewrite Hv. reflexivity. }
+  intros pre body rest' (bi & Ebi & Hbok & ->). rewrite Hs.
+  assert (bi = enc_unknown v).
+  { unfold enc_descriptor_body in Ebi. rewrite Hu in Ebi. unfold_tags. not_typed Hn. rewrite Hv in Ebi. inversion Ebi; reflexivity. }
+  subst bi. set (n := zlen (DescriptorUnknown_Content v)) in *.
+  unfold parse_descriptor_body. rewrite Hu. unfold_tags. not_typed Hn.
+  unfold enc_unknown in *. rewrite bytes_of_items_cons_bytes, bytes_of_items_nil, app_nil_r by (try apply ok_single_bytes; iok).
+  unfold new_descriptor_unknown, ibind. rewrite next_bytes_step by reflexivity. unfold iret.
+  destruct v as [c t]. cbn [DescriptorUnknown_Tag DescriptorUnknown_Content] in *. subst t. eexists. reflexivity.
+Qed.
+
 Theorem rt_unknown d v out rest :
   0 <= Descriptor_Tag d < 256 -> is_user_defined (Descriptor_Tag d) = false -> ~ In (Descriptor_Tag d) typed_tags ->
   Descriptor_Unknown d = Some v -> DescriptorUnknown_Tag v = Descriptor_Tag d -> 0 < zlen (DescriptorUnknown_Content v) < 256 ->
@@ -1124,18 +1192,12 @@ Theorem rt_unknown d v out rest :
         mk_iter (bytes_of_items out ++ rest) (4 + zlen (DescriptorUnknown_Content v))).
 Proof.
   intros Hr Hu Hn Hv Htag Hl H Hok.
+  assert (Hbrt : body_rt d (set_Unknown (desc_hdr (Descriptor_Tag d) (zlen (DescriptorUnknown_Content v))) v)) by (apply (brt_unknown d v); assumption).
   assert (Hs : desc_size d = zlen (DescriptorUnknown_Content v)).
   { unfold desc_size. rewrite <- is_user_defined_spec, Hu. not_typed Hn. rewrite Hv. reflexivity. }
   destruct (single_descriptor_loop d out rest (set_Unknown (desc_hdr (Descriptor_Tag d) (zlen (DescriptorUnknown_Content v))) v) H Hok) as [E _];
     [lia|lia| |rewrite Hs in E; exact E].
-  intros pre body rest' Hpre (bi & Ebi & Hbok & ->). rewrite Hs.
-  assert (bi = enc_unknown v).
-  { unfold enc_descriptor_body in Ebi. rewrite Hu in Ebi. unfold_tags. not_typed Hn. rewrite Hv in Ebi. inversion Ebi; reflexivity. }
-  subst bi. set (n := zlen (DescriptorUnknown_Content v)) in *.
-  unfold parse_descriptor_body. rewrite Hu. unfold_tags. not_typed Hn.
-  unfold enc_unknown in *. rewrite bytes_of_items_cons_bytes, bytes_of_items_nil, app_nil_r by (try apply ok_single_bytes; iok).
-  unfold new_descriptor_unknown, ibind. rewrite next_bytes_step by reflexivity. unfold iret.
-  destruct v as [c t]. cbn [DescriptorUnknown_Tag DescriptorUnknown_Content] in *. subst t. eexists. reflexivity.
+  intros pre body rest' _ Hex. apply Hbrt. exact Hex.
 Qed.
 
 (* 32-bit word read back *)
@@ -1148,6 +1210,21 @@ Proof.
 Qed.
 
 (* private data indicator (ISO/IEC 13818-1 2.6.28) *)
+Lemma brt_private_data_indicator d v :
+  Descriptor_Tag d = 15 -> Descriptor_PrivateDataIndicator d = Some v ->
+  0 <= DescriptorPrivateDataIndicator_Indicator v < 2 ^ 32 ->
+  body_rt d (set_PrivateDataIndicator (desc_hdr 15 4) v).
+Proof.
+  intros Ht Hv Hr.
+  assert (Hs : desc_size d = 4) by (unfold desc_size; rewrite Ht, Hv; reflexivity).
+  intros pre body rest' (bi & Ebi & Hbok & ->). rewrite Ht, Hs.
+  assert (bi = enc_private_data_indicator v) by (unfold enc_descriptor_body in Ebi; rewrite Ht, Hv in Ebi; inversion Ebi; reflexivity). subst bi.
+  change (parse_descriptor_body 15 4 (zlen pre + 4)) with (v0 <- new_descriptor_private_data_indicator ;; iret (set_PrivateDataIndicator (desc_hdr 15 4) v0)).
+  unfold enc_private_data_indicator. destruct (u32_group _ Hr) as [Hl Hb].
+  unfold new_descriptor_private_data_indicator, ibind. rewrite next_bytes_nocopy_step by exact Hl.
+  unfold iret. rewrite Hb. destruct v. eexists. reflexivity.
+Qed.
+
 Theorem rt_private_data_indicator d v out rest :
   Descriptor_Tag d = 15 -> Descriptor_PrivateDataIndicator d = Some v ->
   0 <= DescriptorPrivateDataIndicator_Indicator v < 2 ^ 32 ->
@@ -1156,17 +1233,28 @@ Theorem rt_private_data_indicator d v out rest :
     Ok ([set_PrivateDataIndicator (desc_hdr 15 4) v], mk_iter (bytes_of_items out ++ rest) 8).
 Proof.
   intros Ht Hv Hr H Hok.
+  assert (Hbrt : body_rt d (set_PrivateDataIndicator (desc_hdr 15 4) v)) by (apply (brt_private_data_indicator d v); assumption).
   assert (Hs : desc_size d = 4) by (unfold desc_size; rewrite Ht, Hv; reflexivity).
   destruct (single_descriptor_loop d out rest (set_PrivateDataIndicator (desc_hdr 15 4) v) H Hok) as [E _]; [rewrite Ht; lia|lia| |rewrite Hs in E; exact E].
-  intros pre body rest' Hpre (bi & Ebi & Hbok & ->). rewrite Ht, Hs.
-  assert (bi = enc_private_data_indicator v) by (unfold enc_descriptor_body in Ebi; rewrite Ht, Hv in Ebi; inversion Ebi; reflexivity). subst bi.
-  change (parse_descriptor_body 15 4 (zlen pre + 4)) with (v0 <- new_descriptor_private_data_indicator ;; iret (set_PrivateDataIndicator (desc_hdr 15 4) v0)).
-  unfold enc_private_data_indicator. destruct (u32_group _ Hr) as [Hl Hb].
-  unfold new_descriptor_private_data_indicator, ibind. rewrite next_bytes_nocopy_step by exact Hl.
-  unfold iret. rewrite Hb. destruct v. eexists. reflexivity.
+  intros pre body rest' _ Hex. apply Hbrt. exact Hex.
 Qed.
 
 (* private data specifier (EN 300 468 6.2.31) *)
+Lemma brt_private_data_specifier d v :
+  Descriptor_Tag d = 95 -> Descriptor_PrivateDataSpecifier d = Some v ->
+  0 <= DescriptorPrivateDataSpecifier_Specifier v < 2 ^ 32 ->
+  body_rt d (set_PrivateDataSpecifier (desc_hdr 95 4) v).
+Proof.
+  intros Ht Hv Hr.
+  assert (Hs : desc_size d = 4) by (unfold desc_size; rewrite Ht, Hv; reflexivity).
+  intros pre body rest' (bi & Ebi & Hbok & ->). rewrite Ht, Hs.
+  assert (bi = enc_private_data_specifier v) by (unfold enc_descriptor_body in Ebi; rewrite Ht, Hv in Ebi; inversion Ebi; reflexivity). subst bi.
+  change (parse_descriptor_body 95 4 (zlen pre + 4)) with (v0 <- new_descriptor_private_data_specifier ;; iret (set_PrivateDataSpecifier (desc_hdr 95 4) v0)).
+  unfold enc_private_data_specifier. destruct (u32_group _ Hr) as [Hl Hb].
+  unfold new_descriptor_private_data_specifier, ibind. rewrite next_bytes_nocopy_step by exact Hl.
+  unfold iret. rewrite Hb. destruct v. eexists. reflexivity.
+Qed.
+
 Theorem rt_private_data_specifier d v out rest :
   Descriptor_Tag d = 95 -> Descriptor_PrivateDataSpecifier d = Some v ->
   0 <= DescriptorPrivateDataSpecifier_Specifier v < 2 ^ 32 ->
@@ -1175,28 +1263,21 @@ Theorem rt_private_data_specifier d v out rest :
     Ok ([set_PrivateDataSpecifier (desc_hdr 95 4) v], mk_iter (bytes_of_items out ++ rest) 8).
 Proof.
   intros Ht Hv Hr H Hok.
+  assert (Hbrt : body_rt d (set_PrivateDataSpecifier (desc_hdr 95 4) v)) by (apply (brt_private_data_specifier d v); assumption).
   assert (Hs : desc_size d = 4) by (unfold desc_size; rewrite Ht, Hv; reflexivity).
   destruct (single_descriptor_loop d out rest (set_PrivateDataSpecifier (desc_hdr 95 4) v) H Hok) as [E _]; [rewrite Ht; lia|lia| |rewrite Hs in E; exact E].
-  intros pre body rest' Hpre (bi & Ebi & Hbok & ->). rewrite Ht, Hs.
-  assert (bi = enc_private_data_specifier v) by (unfold enc_descriptor_body in Ebi; rewrite Ht, Hv in Ebi; inversion Ebi; reflexivity). subst bi.
-  change (parse_descriptor_body 95 4 (zlen pre + 4)) with (v0 <- new_descriptor_private_data_specifier ;; iret (set_PrivateDataSpecifier (desc_hdr 95 4) v0)).
-  unfold enc_private_data_specifier. destruct (u32_group _ Hr) as [Hl Hb].
-  unfold new_descriptor_private_data_specifier, ibind. rewrite next_bytes_nocopy_step by exact Hl.
-  unfold iret. rewrite Hb. destruct v. eexists. reflexivity.
+  intros pre body rest' _ Hex. apply Hbrt. exact Hex.
 Qed.
 
 (* maximum bitrate (ISO/IEC 13818-1 2.6.26): 2 reserved bits, 22 bits in units of 50 bytes/second *)
-Theorem rt_maximum_bitrate d v k out rest :
+Lemma brt_maximum_bitrate d v k :
   Descriptor_Tag d = 14 -> Descriptor_MaximumBitrate d = Some v ->
   DescriptorMaximumBitrate_Bitrate v = k * 50 -> 0 <= k < 2 ^ 22 ->
-  enc_descriptors_with_length [d] = Ok out -> items_bytes_ok out ->
-  parse_descriptors (new_iter (bytes_of_items out ++ rest)) =
-    Ok ([set_MaximumBitrate (desc_hdr 14 3) v], mk_iter (bytes_of_items out ++ rest) 7).
+  body_rt d (set_MaximumBitrate (desc_hdr 14 3) v).
 Proof.
-  intros Ht Hv Hk Hr H Hok.
+  intros Ht Hv Hk Hr.
   assert (Hs : desc_size d = 3) by (unfold desc_size; rewrite Ht, Hv; reflexivity).
-  destruct (single_descriptor_loop d out rest (set_MaximumBitrate (desc_hdr 14 3) v) H Hok) as [E _]; [rewrite Ht; lia|lia| |rewrite Hs in E; exact E].
-  intros pre body rest' Hpre (bi & Ebi & Hbok & ->). rewrite Ht, Hs.
+  intros pre body rest' (bi & Ebi & Hbok & ->). rewrite Ht, Hs.
   assert (bi = enc_maximum_bitrate v) by (unfold enc_descriptor_body in Ebi; rewrite Ht, Hv in Ebi; inversion Ebi; reflexivity). subst bi.
   change (parse_descriptor_body 14 3 (zlen pre + 3)) with (v0 <- new_descriptor_maximum_bitrate ;; iret (set_MaximumBitrate (desc_hdr 14 3) v0)).
   destruct (bytes_of_group (enc_maximum_bitrate v) 3) as [Hl Hb]; [exact Hbok|unfold enc_maximum_bitrate; bl; reflexivity|].
@@ -1205,6 +1286,20 @@ Proof.
   rewrite (field_skip 2) by lia. change (2 - 2)%nat with 0%nat. rewrite Hk, Z.div_mul by lia.
   rewrite <- (app_nil_r (bits_of 22 k)), field_here by exact Hr.
   destruct v as [b]. cbn [DescriptorMaximumBitrate_Bitrate] in Hk. subst b. eexists. reflexivity.
+Qed.
+
+Theorem rt_maximum_bitrate d v k out rest :
+  Descriptor_Tag d = 14 -> Descriptor_MaximumBitrate d = Some v ->
+  DescriptorMaximumBitrate_Bitrate v = k * 50 -> 0 <= k < 2 ^ 22 ->
+  enc_descriptors_with_length [d] = Ok out -> items_bytes_ok out ->
+  parse_descriptors (new_iter (bytes_of_items out ++ rest)) =
+    Ok ([set_MaximumBitrate (desc_hdr 14 3) v], mk_iter (bytes_of_items out ++ rest) 7).
+Proof.
+  intros Ht Hv Hk Hr H Hok.
+  assert (Hbrt : body_rt d (set_MaximumBitrate (desc_hdr 14 3) v)) by (apply (brt_maximum_bitrate d v k); assumption).
+  assert (Hs : desc_size d = 3) by (unfold desc_size; rewrite Ht, Hv; reflexivity).
+  destruct (single_descriptor_loop d out rest (set_MaximumBitrate (desc_hdr 14 3) v) H Hok) as [E _]; [rewrite Ht; lia|lia| |rewrite Hs in E; exact E].
+  intros pre body rest' _ Hex. apply Hbrt. exact Hex.
 Qed.
 
 Lemma bytes_of_single_bytes a : bytes_ok a -> bytes_of_items [WBytes a] = a.
@@ -1216,21 +1311,16 @@ Lemma items_ok_head_bytes a l : items_bytes_ok (WBytes a :: l) -> bytes_ok a.
 Proof. intros H. inversion H; assumption. Qed.
 
 (* registration (ISO/IEC 13818-1 2.6.8) *)
-Theorem rt_registration d v out rest :
+Lemma brt_registration d v :
   Descriptor_Tag d = 5 -> Descriptor_Registration d = Some v ->
   0 <= DescriptorRegistration_FormatIdentifier v < 2 ^ 32 ->
   zlen (DescriptorRegistration_AdditionalIdentificationInfo v) < 252 ->
-  enc_descriptors_with_length [d] = Ok out -> items_bytes_ok out ->
-  parse_descriptors (new_iter (bytes_of_items out ++ rest)) =
-    Ok ([set_Registration (desc_hdr 5 (4 + zlen (DescriptorRegistration_AdditionalIdentificationInfo v))) v],
-        mk_iter (bytes_of_items out ++ rest) (8 + zlen (DescriptorRegistration_AdditionalIdentificationInfo v))).
+  body_rt d (set_Registration (desc_hdr 5 (4 + zlen (DescriptorRegistration_AdditionalIdentificationInfo v))) v).
 Proof.
-  intros Ht Hv Hr Hl H Hok. set (ai := DescriptorRegistration_AdditionalIdentificationInfo v) in *.
+  intros Ht Hv Hr Hl. set (ai := DescriptorRegistration_AdditionalIdentificationInfo v) in *.
   pose proof (zlen_nonneg ai) as Hnn.
   assert (Hs : desc_size d = 4 + zlen ai) by (unfold desc_size; rewrite Ht, Hv; reflexivity).
-  destruct (single_descriptor_loop d out rest (set_Registration (desc_hdr 5 (4 + zlen ai)) v) H Hok) as [E _];
-    [rewrite Ht; lia|lia| |rewrite Hs in E; replace (8 + zlen ai) with (4 + (4 + zlen ai)) by lia; exact E].
-  intros pre body rest' Hpre (bi & Ebi & Hbok & ->). rewrite Ht, Hs.
+  intros pre body rest' (bi & Ebi & Hbok & ->). rewrite Ht, Hs.
   assert (bi = enc_registration v) by (unfold enc_descriptor_body in Ebi; rewrite Ht, Hv in Ebi; inversion Ebi; reflexivity). subst bi.
   change (parse_descriptor_body 5 (4 + zlen ai) (zlen pre + (4 + zlen ai))) with
     (v0 <- new_descriptor_registration (zlen pre + (4 + zlen ai)) ;; iret (set_Registration (desc_hdr 5 (4 + zlen ai)) v0)).
@@ -1253,19 +1343,35 @@ Proof.
     rewrite Eai. eexists. reflexivity.
 Qed.
 
+Theorem rt_registration d v out rest :
+  Descriptor_Tag d = 5 -> Descriptor_Registration d = Some v ->
+  0 <= DescriptorRegistration_FormatIdentifier v < 2 ^ 32 ->
+  zlen (DescriptorRegistration_AdditionalIdentificationInfo v) < 252 ->
+  enc_descriptors_with_length [d] = Ok out -> items_bytes_ok out ->
+  parse_descriptors (new_iter (bytes_of_items out ++ rest)) =
+    Ok ([set_Registration (desc_hdr 5 (4 + zlen (DescriptorRegistration_AdditionalIdentificationInfo v))) v],
+        mk_iter (bytes_of_items out ++ rest) (8 + zlen (DescriptorRegistration_AdditionalIdentificationInfo v))).
+Proof.
+  intros Ht Hv Hr Hl H Hok.
+  assert (Hbrt : body_rt d (set_Registration (desc_hdr 5 (4 + zlen (DescriptorRegistration_AdditionalIdentificationInfo v))) v)) by (apply (brt_registration d v); assumption).
+  set (ai := DescriptorRegistration_AdditionalIdentificationInfo v) in *.
+  pose proof (zlen_nonneg ai) as Hnn.
+  assert (Hs : desc_size d = 4 + zlen ai) by (unfold desc_size; rewrite Ht, Hv; reflexivity).
+  destruct (single_descriptor_loop d out rest (set_Registration (desc_hdr 5 (4 + zlen ai)) v) H Hok) as [E _];
+    [rewrite Ht; lia|lia| |rewrite Hs in E; replace (8 + zlen ai) with (4 + (4 + zlen ai)) by lia; exact E].
+  intros pre body rest' _ Hex. apply Hbrt. exact Hex.
+Qed.
+
 (* ISO 639 language and audio type (ISO/IEC 13818-1 2.6.18, one entry): 3-byte language code *)
-Theorem rt_iso639 d v out rest :
+Lemma brt_iso639 d v :
   Descriptor_Tag d = 10 -> Descriptor_ISO639LanguageAndAudioType d = Some v ->
   length (DescriptorISO639LanguageAndAudioType_Language v) = 3%nat ->
   byte_range (DescriptorISO639LanguageAndAudioType_Type v) ->
-  enc_descriptors_with_length [d] = Ok out -> items_bytes_ok out ->
-  parse_descriptors (new_iter (bytes_of_items out ++ rest)) =
-    Ok ([set_ISO639LanguageAndAudioType (desc_hdr 10 4) v], mk_iter (bytes_of_items out ++ rest) 8).
+  body_rt d (set_ISO639LanguageAndAudioType (desc_hdr 10 4) v).
 Proof.
-  intros Ht Hv Hl3 Hr H Hok.
+  intros Ht Hv Hl3 Hr.
   assert (Hs : desc_size d = 4) by (unfold desc_size; rewrite Ht, Hv; reflexivity).
-  destruct (single_descriptor_loop d out rest (set_ISO639LanguageAndAudioType (desc_hdr 10 4) v) H Hok) as [E _]; [rewrite Ht; lia|lia| |rewrite Hs in E; exact E].
-  intros pre body rest' Hpre (bi & Ebi & Hbok & ->). rewrite Ht, Hs.
+  intros pre body rest' (bi & Ebi & Hbok & ->). rewrite Ht, Hs.
   assert (bi = enc_iso639 v) by (unfold enc_descriptor_body in Ebi; rewrite Ht, Hv in Ebi; inversion Ebi; reflexivity). subst bi.
   change (parse_descriptor_body 10 4 (zlen pre + 4)) with
     (v0 <- new_descriptor_iso639 (zlen pre + 4) ;; iret (set_ISO639LanguageAndAudioType (desc_hdr 10 4) v0)).
@@ -1280,22 +1386,31 @@ Proof.
   unfold iret. rewrite removelast_last, last_last. eexists. reflexivity.
 Qed.
 
-(* service (EN 300 468 6.2.33) *)
-Theorem rt_service d v out rest :
-  Descriptor_Tag d = 72 -> Descriptor_Service d = Some v -> byte_range (DescriptorService_Type v) ->
-  3 + zlen (DescriptorService_Provider v) + zlen (DescriptorService_Name v) < 256 ->
+Theorem rt_iso639 d v out rest :
+  Descriptor_Tag d = 10 -> Descriptor_ISO639LanguageAndAudioType d = Some v ->
+  length (DescriptorISO639LanguageAndAudioType_Language v) = 3%nat ->
+  byte_range (DescriptorISO639LanguageAndAudioType_Type v) ->
   enc_descriptors_with_length [d] = Ok out -> items_bytes_ok out ->
   parse_descriptors (new_iter (bytes_of_items out ++ rest)) =
-    Ok ([set_Service (desc_hdr 72 (3 + zlen (DescriptorService_Provider v) + zlen (DescriptorService_Name v))) v],
-        mk_iter (bytes_of_items out ++ rest) (4 + (3 + zlen (DescriptorService_Provider v) + zlen (DescriptorService_Name v)))).
+    Ok ([set_ISO639LanguageAndAudioType (desc_hdr 10 4) v], mk_iter (bytes_of_items out ++ rest) 8).
 Proof.
-  intros Ht Hv Hr Hl H Hok. destruct v as [name prov ty]. cbn [DescriptorService_Name DescriptorService_Provider DescriptorService_Type] in *.
+  intros Ht Hv Hl3 Hr H Hok.
+  assert (Hbrt : body_rt d (set_ISO639LanguageAndAudioType (desc_hdr 10 4) v)) by (apply (brt_iso639 d v); assumption).
+  assert (Hs : desc_size d = 4) by (unfold desc_size; rewrite Ht, Hv; reflexivity).
+  destruct (single_descriptor_loop d out rest (set_ISO639LanguageAndAudioType (desc_hdr 10 4) v) H Hok) as [E _]; [rewrite Ht; lia|lia| |rewrite Hs in E; exact E].
+  intros pre body rest' _ Hex. apply Hbrt. exact Hex.
+Qed.
+
+(* service (EN 300 468 6.2.33) *)
+Lemma brt_service d v :
+  Descriptor_Tag d = 72 -> Descriptor_Service d = Some v -> byte_range (DescriptorService_Type v) ->
+  3 + zlen (DescriptorService_Provider v) + zlen (DescriptorService_Name v) < 256 ->
+  body_rt d (set_Service (desc_hdr 72 (3 + zlen (DescriptorService_Provider v) + zlen (DescriptorService_Name v))) v).
+Proof.
+  intros Ht Hv Hr Hl. destruct v as [name prov ty]. cbn [DescriptorService_Name DescriptorService_Provider DescriptorService_Type] in *.
   pose proof (zlen_nonneg name). pose proof (zlen_nonneg prov).
   assert (Hs : desc_size d = 3 + zlen prov + zlen name) by (unfold desc_size; rewrite Ht, Hv; reflexivity).
-  destruct (single_descriptor_loop d out rest
-     (set_Service (desc_hdr 72 (3 + zlen prov + zlen name)) {| DescriptorService_Name := name; DescriptorService_Provider := prov; DescriptorService_Type := ty |}) H Hok) as [E _];
-    [rewrite Ht; lia|lia| |rewrite Hs in E; exact E].
-  intros pre body rest' Hpre (bi & Ebi & Hbok & ->). rewrite Ht, Hs.
+  intros pre body rest' (bi & Ebi & Hbok & ->). rewrite Ht, Hs.
   assert (bi = enc_service {| DescriptorService_Name := name; DescriptorService_Provider := prov; DescriptorService_Type := ty |})
     by (unfold enc_descriptor_body in Ebi; rewrite Ht, Hv in Ebi; inversion Ebi; reflexivity). subst bi.
   set (n := 3 + zlen prov + zlen name).
@@ -1312,6 +1427,25 @@ Proof.
   unfold iret. eexists. reflexivity.
 Qed.
 
+Theorem rt_service d v out rest :
+  Descriptor_Tag d = 72 -> Descriptor_Service d = Some v -> byte_range (DescriptorService_Type v) ->
+  3 + zlen (DescriptorService_Provider v) + zlen (DescriptorService_Name v) < 256 ->
+  enc_descriptors_with_length [d] = Ok out -> items_bytes_ok out ->
+  parse_descriptors (new_iter (bytes_of_items out ++ rest)) =
+    Ok ([set_Service (desc_hdr 72 (3 + zlen (DescriptorService_Provider v) + zlen (DescriptorService_Name v))) v],
+        mk_iter (bytes_of_items out ++ rest) (4 + (3 + zlen (DescriptorService_Provider v) + zlen (DescriptorService_Name v)))).
+Proof.
+  intros Ht Hv Hr Hl H Hok.
+  assert (Hbrt : body_rt d (set_Service (desc_hdr 72 (3 + zlen (DescriptorService_Provider v) + zlen (DescriptorService_Name v))) v)) by (apply (brt_service d v); assumption).
+  destruct v as [name prov ty]. cbn [DescriptorService_Name DescriptorService_Provider DescriptorService_Type] in *.
+  pose proof (zlen_nonneg name). pose proof (zlen_nonneg prov).
+  assert (Hs : desc_size d = 3 + zlen prov + zlen name) by (unfold desc_size; rewrite Ht, Hv; reflexivity).
+  destruct (single_descriptor_loop d out rest
+     (set_Service (desc_hdr 72 (3 + zlen prov + zlen name)) {| DescriptorService_Name := name; DescriptorService_Provider := prov; DescriptorService_Type := ty |}) H Hok) as [E _];
+    [rewrite Ht; lia|lia| |rewrite Hs in E; exact E].
+  intros pre body rest' _ Hex. apply Hbrt. exact Hex.
+Qed.
+
 Lemma one_byte_group g : items_bytes_ok g -> bitlen g = 8 ->
   exists b, bytes_of_items g = [b] /\ bits_of_bytes [b] = items_bits g.
 Proof.
@@ -1321,18 +1455,15 @@ Proof.
 Qed.
 
 (* AVC video (ISO/IEC 13818-1 2.6.64) *)
-Theorem rt_avc_video d v out rest :
+Lemma brt_avc_video d v :
   Descriptor_Tag d = 40 -> Descriptor_AVCVideo d = Some v ->
   byte_range (DescriptorAVCVideo_ProfileIDC v) -> byte_range (DescriptorAVCVideo_LevelIDC v) ->
   0 <= DescriptorAVCVideo_CompatibleFlags v < 32 ->
-  enc_descriptors_with_length [d] = Ok out -> items_bytes_ok out ->
-  parse_descriptors (new_iter (bytes_of_items out ++ rest)) =
-    Ok ([set_AVCVideo (desc_hdr 40 4) v], mk_iter (bytes_of_items out ++ rest) 8).
+  body_rt d (set_AVCVideo (desc_hdr 40 4) v).
 Proof.
-  intros Ht Hv Hp Hlv Hcf H Hok.
+  intros Ht Hv Hp Hlv Hcf.
   assert (Hs : desc_size d = 4) by (unfold desc_size; rewrite Ht, Hv; reflexivity).
-  destruct (single_descriptor_loop d out rest (set_AVCVideo (desc_hdr 40 4) v) H Hok) as [E _]; [rewrite Ht; lia|lia| |rewrite Hs in E; exact E].
-  intros pre body rest' Hpre (bi & Ebi & Hbok & ->). rewrite Ht, Hs.
+  intros pre body rest' (bi & Ebi & Hbok & ->). rewrite Ht, Hs.
   assert (bi = enc_avc_video v) by (unfold enc_descriptor_body in Ebi; rewrite Ht, Hv in Ebi; inversion Ebi; reflexivity). subst bi.
   change (parse_descriptor_body 40 4 (zlen pre + 4)) with (v0 <- new_descriptor_avc_video ;; iret (set_AVCVideo (desc_hdr 40 4) v0)).
   destruct v as [h24 still cf c0 c1 c2 lv pr].
@@ -1352,6 +1483,21 @@ Proof.
   unfold iret, bitb, bitsf. rewrite Hb1, Hb3. unfold g1, g3, items_bits. cbn [flat_map item_bits app].
   rewrite !field_bit_skip, !field_bit_here, !b2z_eqb, field_here by exact Hcf.
   eexists. reflexivity.
+Qed.
+
+Theorem rt_avc_video d v out rest :
+  Descriptor_Tag d = 40 -> Descriptor_AVCVideo d = Some v ->
+  byte_range (DescriptorAVCVideo_ProfileIDC v) -> byte_range (DescriptorAVCVideo_LevelIDC v) ->
+  0 <= DescriptorAVCVideo_CompatibleFlags v < 32 ->
+  enc_descriptors_with_length [d] = Ok out -> items_bytes_ok out ->
+  parse_descriptors (new_iter (bytes_of_items out ++ rest)) =
+    Ok ([set_AVCVideo (desc_hdr 40 4) v], mk_iter (bytes_of_items out ++ rest) 8).
+Proof.
+  intros Ht Hv Hp Hlv Hcf H Hok.
+  assert (Hbrt : body_rt d (set_AVCVideo (desc_hdr 40 4) v)) by (apply (brt_avc_video d v); assumption).
+  assert (Hs : desc_size d = 4) by (unfold desc_size; rewrite Ht, Hv; reflexivity).
+  destruct (single_descriptor_loop d out rest (set_AVCVideo (desc_hdr 40 4) v) H Hok) as [E _]; [rewrite Ht; lia|lia| |rewrite Hs in E; exact E].
+  intros pre body rest' _ Hex. apply Hbrt. exact Hex.
 Qed.
 
 (* ================= part D: the writers emit the reference layouts ================= *)
